@@ -5,6 +5,7 @@ CONSTANTS
  R = 2
  MaxTime = 3
  MaxCalls = 4
+ WriteInLock = TRUE
  Recheck = FALSE
 INVARIANT FetchOnce
 INVARIANT ReturnsFresh
